@@ -1,12 +1,87 @@
-(** C12 — No input or configuration crashes darklua (partial by nature).
-    interim: totality theorems are imported from the models of C09 / C02 / C03 when available. *)
+(** C12 — No input or configuration crashes darklua (PARTIAL by nature, see DESIGN.md).
+
+    A Coq model cannot exhibit a Rust panic, a native stack overflow or a hang; what is
+    stated here is the absence of the LOGIC-LEVEL failure at panic / loop sites that sit in
+    modelled code: each partial or looping operation of the models is total on the states it
+    can reach.  The theorems are proved in the developments of the properties that own the
+    models; arbitrary bytes into the parser, rule chains, generators and the re-parse of
+    every output are exercised by the catch_unwind / watchdog runs of vlib/c12.py (a test,
+    not a proof). *)
+From Coq Require Import NArith List Bool.
 From DL Require Import Lib.Bytes Model.StringLit Proof.StringLitFacts.
+From DL Require Import Model.Rename Model.Bundle Proof.BundleTheorems Proof.RenameStream.
+From DL Require Import Model.WorkerFs Model.Worker Proof.WorkerLoop.
+From DL Require Import Model.CommentText Model.TokenGen Proof.TokenGenFacts.
 Open Scope N_scope.
 
-(** the literal writer is total and its result always decodes: no input makes it fail *)
+(** the literal writer is total and its result always decodes: no value makes it fail *)
 Theorem C12_write_string_total : forall s, wf_bytes s = true ->
   exists t, write_string s = t /\ decode_literal true t = Some s.
 Proof. intros s H. exists (write_string s). split; [reflexivity | exact (write_string_roundtrip s H)]. Qed.
 Print Assumptions C12_write_string_total.
 Check C12_write_string_total : forall s, wf_bytes s = true ->
   exists t, write_string s = t /\ decode_literal true t = Some s.
+
+(** bundling never loops: the inlining of requires ends on every module graph (cycles are
+    reported, not followed) *)
+Theorem C12_bundle_terminates : forall g roots, bundle g roots <> Bundle.OutOfFuel.
+Proof. exact bundle_terminates. Qed.
+Print Assumptions C12_bundle_terminates.
+Check C12_bundle_terminates : forall g roots, bundle g roots <> Bundle.OutOfFuel.
+
+(** the identifier generator is productive: every prefix of its stream consists of valid
+    identifiers without repetition (the `.unwrap()` / `.expect` sites of generate_identifier) *)
+Theorem C12_generated_stream : forall n,
+  Forall (fun x => valid_ident x = true) (gen_stream n) /\ NoDup (gen_stream n).
+Proof. exact generated_stream. Qed.
+Print Assumptions C12_generated_stream.
+Check C12_generated_stream : forall n,
+  Forall (fun x => valid_ident x = true) (gen_stream n) /\ NoDup (gen_stream n).
+
+(** the worker's processing pass always ends: the work loop exits after one sweep with
+    nothing pending, and a pass never fails to return *)
+Theorem C12_work_loop_one_pass :
+  forall (cfg : Type) (xform : cfg -> path -> content -> fs -> option content * list path)
+         (c : cfg) (t : wtree) (f : fs) (k : nat),
+    exists t' f', work_loop cfg xform (S k) c t f (count_pending (slots t)) = Some (t', f') /\
+                  count_pending (slots t') = 0%nat.
+Proof. exact work_loop_one_pass. Qed.
+Print Assumptions C12_work_loop_one_pass.
+Check C12_work_loop_one_pass :
+  forall (cfg : Type) (xform : cfg -> path -> content -> fs -> option content * list path)
+         (c : cfg) (t : wtree) (f : fs) (k : nat),
+    exists t' f', work_loop cfg xform (S k) c t f (count_pending (slots t)) = Some (t', f') /\
+                  count_pending (slots t') = 0%nat.
+
+Theorem C12_process_total :
+  forall (cfg : Type) (hash : cfg -> N)
+         (xform : cfg -> path -> content -> fs -> option content * list path)
+         (c : cfg) (t : wtree) (f : fs),
+    process cfg hash xform c t f <> None.
+Proof. exact process_total. Qed.
+Print Assumptions C12_process_total.
+Check C12_process_total :
+  forall (cfg : Type) (hash : cfg -> N)
+         (xform : cfg -> path -> content -> fs -> option content * list path)
+         (c : cfg) (t : wtree) (f : fs),
+    process cfg hash xform c t f <> None.
+
+(** token reads of the retain-lines generator stay inside the source text: when the recorded
+    write requests tile the source, generation succeeds (no out-of-range byte slice) and
+    reproduces it *)
+Theorem C12_token_reads_in_bounds : forall src evs lps,
+  layout evs = Some lps ->
+  tiles (List.length src) 0 lps = true ->
+  lines_true src lps = true ->
+  cm_ok false (map (lp_resolve src) lps) = true ->
+  no_adjacent_break src lps = true ->
+  generate src evs = Some src.
+Proof. exact identity. Qed.
+Print Assumptions C12_token_reads_in_bounds.
+Check C12_token_reads_in_bounds : forall src evs lps,
+  layout evs = Some lps ->
+  tiles (List.length src) 0 lps = true ->
+  lines_true src lps = true ->
+  cm_ok false (map (lp_resolve src) lps) = true ->
+  no_adjacent_break src lps = true ->
+  generate src evs = Some src.
